@@ -118,6 +118,54 @@ async def sk_delivery_into_freed_numbers_then_restart(hp, w, rnd, ctx):
     await w.observe()
 
 
+async def sk_delivery_while_an_expunge_is_running(hp, w, rnd, ctx):
+    """The agent files mail while a session's EXPUNGE (then a CLOSE, then a
+    MOVE) is in the middle of removing messages -- its client reads slowly, so
+    the command is still running.  The new messages must be announced, with the
+    agent's flags, by the next synchronisation points."""
+    import asyncio
+
+    a, b = w.session(), w.session()
+    await w.op_create(a, "other")
+    for i in range(9):
+        await w.op_append(a, "INBOX", flags=[["\\Deleted"], ["\\Seen"], ["\\Deleted", "\\Seen"]][i % 3])
+    await w.op_select(a, "INBOX")
+    await w.op_select(b, "INBOX")
+    await w.observe()
+    for how in ("expunge", "move", "close"):
+        if a.nview() < 2:
+            break
+        if how != "expunge":
+            await w.op_store(a, [1, 2], "add", ["\\Deleted"])
+        ev = asyncio.Event()
+        a.s.writer.stall_ev = ev
+        w.no_probe = True
+        try:
+            if how == "expunge":
+                task = asyncio.ensure_future(w.op_expunge(a))
+            elif how == "move":
+                task = asyncio.ensure_future(w.op_copy(a, [1, 2], "other", move=True))
+            else:
+                task = asyncio.ensure_future(w.op_unselect(a, close=True))
+            await w.rig.settle()
+            w.deliver("INBOX", 2, unseen=[True, False])
+            w.stats["deliveries_during_a_running_removal"] += 1
+        finally:
+            ev.set()
+            a.s.writer.stall_ev = None
+        await task
+        w.no_probe = False
+        if a.s.writer.closed:
+            a = w.session()
+        if how == "close" or a.view is None:
+            await w.op_select(a, "INBOX")
+        await w.rig.advance(25)
+        await w.op_noop(b)
+        await w.op_noop(a)
+        await w.observe()
+        w.check_disk("INBOX")
+
+
 async def sk_delivery_while_a_command_is_executing(hp, w, rnd, ctx):
     """The agent files a message while one session's command is still
     executing (slow reader), then another session's flag-changing command
@@ -171,7 +219,7 @@ async def sk_delivery_while_a_command_is_executing(hp, w, rnd, ctx):
 class C13(HistProp):
     prop = PROP
     names = ["INBOX", "other"]
-    skeletons = [sk_number_reuse, sk_delivery_to_idle_unselected_inactive, sk_move_close_then_deliver, sk_delivery_while_a_command_is_executing, sk_delivery_into_freed_numbers_then_restart]
+    skeletons = [sk_number_reuse, sk_delivery_to_idle_unselected_inactive, sk_move_close_then_deliver, sk_delivery_while_a_command_is_executing, sk_delivery_into_freed_numbers_then_restart, sk_delivery_while_an_expunge_is_running]
     weights = {"deliver": 16, "store": 8, "store_del": 9, "uid_store": 3, "expunge": 9, "uid_expunge": 3, "move": 4, "copy": 3, "append": 4, "noop": 9, "idle": 5, "advance": 4,
                "fetch_body": 3, "close": 3, "unselect": 3, "restart": 1, "check": 3, "deliver_stalled": 5, "rename_inbox": 1}
     opts = {"rename_targets": ["saved", "kept"]}
